@@ -384,6 +384,10 @@ def real_replay(sc, acv_plain, ex, h, simrec):
                 continue
             if st["op"] == "dirty_restart" or st.get("fault"):
                 return None
+            if len(st["argv"]) == 4 and st["argv"][0] == "validate" and st["argv"][3] in st["argv"][1:3]:
+                # the report (with the real clock's dateCreated) replaces an input: later steps read it, and the
+                # two sides can no longer be compared byte for byte
+                return None
             p = subprocess.run([acv_plain] + st["argv"], cwd=d, capture_output=True, timeout=120)
             if p.returncode != srec["rc"]:
                 mism.append("exit status real=%d sim=%d for %s" % (p.returncode, srec["rc"], st["argv"]))
